@@ -1,13 +1,13 @@
 SPECIFICATION MSpec
 CONSTANTS
   ConfSet <- AllConfs
-  Durs = {0, 1, 2, 4}
+  Durs = {0, 1, 4}
   Delays = {0, 1, 2}
-  Horizon = 13
-  MaxChanges = 2
+  Horizon = 10
+  MaxChanges = 1
   MaxFails = 2
   MaxToggles = 2
-  PermStops = FALSE
+  PermStops = TRUE
 INVARIANT FirstRun
 INVARIANT NoOverlap
 INVARIANT IdleLaw
@@ -16,4 +16,5 @@ INVARIANT AfterOkSharp
 INVARIANT AfterTemp
 INVARIANT AfterExc
 INVARIANT PermanentEndsIt
+INVARIANT RespawnedFirst
 CHECK_DEADLOCK FALSE
